@@ -465,6 +465,81 @@ func runC19(p *core.Prog, r *core.Report, tier string) {
 
 	r.Floor("C19.5 hierarchical variables", len(vlist), 4)
 	r.Floor("C19.5 configuration reads swept", nReads, 20)
+
+	// ---- (11) an object that is configured from a path built from a name is cached under that very name: where a
+	// function of the main package builds configuration paths with Sprintf("…%s", name) for a string parameter and
+	// keeps what it builds in a package-level map, the map's key is that parameter — a coarser key hands a caller the
+	// object that was configured for another spelling of the name ----
+	nCache := 0
+	for _, f := range p.SrcFuncs() {
+		rel := core.RelPkg(f.Pkg.Pkg.Path())
+		if (rel != "" && rel != ".") || f.Parent() != nil {
+			continue
+		}
+		var names []*ssa.Parameter
+		core.EachInstr(f, func(in ssa.Instruction) {
+			c, ok := in.(*ssa.Call)
+			if !ok || c.Call.StaticCallee() == nil || c.Call.StaticCallee().Name() != "Sprintf" || len(c.Call.Args) != 2 {
+				return
+			}
+			format, ok := constString(c.Call.Args[0])
+			if !ok || !strings.Contains(format, ".%s") {
+				return
+			}
+			d := ds.D(c.Call.Args[1])
+			if d.Kind != "varargs" || len(d.Args) != 1 {
+				return
+			}
+			var prm *ssa.Parameter
+			if d.Args[0].Kind == "param" {
+				for _, q := range f.Params {
+					if q.Name() == d.Args[0].Name {
+						prm = q
+					}
+				}
+			}
+			if prm != nil {
+				seen := false
+				for _, q := range names {
+					if q == prm {
+						seen = true
+					}
+				}
+				if !seen {
+					names = append(names, prm)
+				}
+			}
+		})
+		if len(names) != 1 {
+			continue
+		}
+		core.EachInstr(f, func(in ssa.Instruction) {
+			var m, key ssa.Value
+			switch x := in.(type) {
+			case *ssa.MapUpdate:
+				m, key = x.Map, x.Key
+			case *ssa.Lookup:
+				m, key = x.X, x.Index
+			default:
+				return
+			}
+			ld, ok := m.(*ssa.UnOp)
+			if !ok {
+				return
+			}
+			g, ok := ld.X.(*ssa.Global)
+			if !ok {
+				return
+			}
+			if b, ok := key.Type().Underlying().(*types.Basic); !ok || b.Kind() != types.String {
+				return
+			}
+			nCache++
+			r.Check(key == ssa.Value(names[0]), "C19.11", fmt.Sprintf("%s|cache %s|keyed-by-configured-name#%d", core.FnKey(f), g.Name(), nCache), p.Pos(in.Pos()), "the cache is keyed by the name the configuration paths are built from",
+				"the cache "+g.Name()+" is keyed by "+ds.D(key).String()+" while the object's settings are resolved for the path built from "+names[0].Name()+": two spellings that share a key share one object, configured for whichever was asked for first")
+		})
+	}
+	r.Floor("C19.11 accesses to caches of configured objects", nCache, 2)
 }
 
 // loopPathPhi recognises the iterative form of a hierarchical getter: a string variable that starts as a string
